@@ -168,6 +168,23 @@ def shape_stats(shapes):
     }
 
 
+# --- argument forms: an integer argument is legal as a Python int and as a numpy integer scalar of any width that holds it ---
+INT_FORMS = [None, None, "int64", "intp", "int32", "uint8", "int8", "uint64"]
+
+
+def int_form(i, form):
+    """the integer i in the given form (None = Python int); a form that cannot hold i falls back to int64"""
+    if form is None or isinstance(i, bool) or not isinstance(i, int):
+        return i
+    dt = np.dtype(form)
+    info = np.iinfo(dt)
+    if not (info.min <= i <= info.max):
+        dt = np.dtype("int64")
+        if not (np.iinfo(dt).min <= i <= np.iinfo(dt).max):
+            return i
+    return dt.type(i)
+
+
 DERIVATIONS = [None, None, "select", "ufunc", "astype", "rev2", "mask_all", "list_all", "concat0", "reduced"]
 
 
